@@ -3,8 +3,8 @@
    Only theorem statements; each is closed by [exact <lemma>] and followed by Print Assumptions.
    PARTIAL by design: what is proved here is the per-rule decision and validity logic for ALL argument values;
    system-level convergence is checked by the CLI differential of harness/py/props/c18.py.
-   Theorems named *_refuted are clauses of the property the code does NOT satisfy (witnesses replayed on the
-   binary by the check). *)
+   Theorems named *_refuted are clauses the code does NOT satisfy (known findings, witnesses replayed on the
+   binary by the check) or, with "unrepaired" in the name, did not satisfy before a repair in /repo. *)
 From LLB Require Import Base.Bytes Codec.Codec Codec.FileObs Ninja.NinjaRules Ninja.NinjaRulesProofs.
 Local Open Scope N_scope.
 
@@ -32,6 +32,17 @@ Theorem c18_command_valid_hash_changed : forall c h infos outs,
 Proof. exact command_valid_hash_changed. Qed.
 Print Assumptions c18_command_valid_hash_changed.
 
+(* what the hash covers (getCommandHash, repair 66b1a7c): the command line and the three declared input lists;
+   so "changed command line" includes every rewiring of the inputs *)
+Theorem c18_hash_material_injective : forall d1 d2, hash_material d1 = hash_material d2 -> d1 = d2.
+Proof. exact hash_material_injective. Qed.
+Print Assumptions c18_hash_material_injective.
+
+Theorem c18_hash_material_unrepaired_refuted :
+  exists d1 d2, d1 <> d2 /\ hash_material_unrepaired d1 = hash_material_unrepaired d2 /\ hash_material d1 <> hash_material d2.
+Proof. exact hash_material_unrepaired_refuted. Qed.
+Print Assumptions c18_hash_material_unrepaired_refuted.
+
 (* ---- a failing command stops its dependents and is retried ---- *)
 
 (* a failed / missing / skipped (non order-only) input: the external command is never executed *)
@@ -40,15 +51,19 @@ Theorem c18_decide_failed_input_never_runs : forall x c prior ins outs,
 Proof. exact decide_bad_input_never_runs. Qed.
 Print Assumptions c18_decide_failed_input_never_runs.
 
-(* FULL statement wanted: "... => decide = DSkip".  It does not hold (next theorem); what holds: the
-   command is skipped whenever the update-if-newer shortcut does not apply *)
-Theorem c18_decide_failed_input_skips_partial : forall x c prior ins outs,
+(* ... it is skipped (the flag says whether a MISSING input is reported as a command failure) ... *)
+Theorem c18_decide_failed_input_skips : forall x c prior ins outs,
   existsb is_bad (requested ins) = true ->
   x_cancelled x = false -> c_phony c = false -> x_simulate x = false ->
-  shortcut x c prior ins outs = false ->
   decide x c prior ins outs = DSkip (existsb is_missing_input (requested ins)).
-Proof. exact decide_bad_input_skips_partial. Qed.
-Print Assumptions c18_decide_failed_input_skips_partial.
+Proof. exact decide_bad_input_skips. Qed.
+Print Assumptions c18_decide_failed_input_skips.
+
+(* ... and never completed as up to date, whatever the flags *)
+Theorem c18_decide_failed_input_never_updates : forall x c prior ins outs,
+  existsb is_bad (requested ins) = true -> decide x c prior ins outs <> DUpdateOnly.
+Proof. exact decide_bad_input_never_updates. Qed.
+Print Assumptions c18_decide_failed_input_never_updates.
 
 Theorem c18_shortcut_false_reasons : forall x c prior ins outs,
   c_has_deps c = true \/ (c_generator c = false /\ prior_hash prior <> Some (c_hash c)) \/
@@ -57,17 +72,19 @@ Theorem c18_shortcut_false_reasons : forall x c prior ins outs,
 Proof. exact shortcut_false_reasons. Qed.
 Print Assumptions c18_shortcut_false_reasons.
 
-(* the code examines shouldSkip only after the shortcut: a command with a MISSING input, unchanged hash and
-   outputs newer than its other inputs is completed as successful, and that value is valid afterwards *)
-Theorem c18_decide_failed_input_skips_refuted :
+(* the code before repair a03bdd8 (shouldSkip examined only after the shortcut): a command with a MISSING
+   input, unchanged hash and outputs newer than its other inputs was completed as successful and that value
+   was valid afterwards; the witness (corpus of the check) is skipped by the current code *)
+Theorem c18_decide_unrepaired_failed_input_refuted :
   exists x c prior ins outs,
     x_cancelled x = false /\ x_simulate x = false /\ c_phony c = false /\
     In (CExplicit, NMissingInput) ins /\
-    decide x c prior ins outs = DUpdateOnly /\
-    produced c outs (decide x c prior ins outs) = Some (command_result c outs) /\
-    command_valid c (command_result c outs) outs = Some true.
-Proof. exact decide_bad_input_skips_refuted. Qed.
-Print Assumptions c18_decide_failed_input_skips_refuted.
+    decide_unrepaired x c prior ins outs = DUpdateOnly /\
+    produced c outs (decide_unrepaired x c prior ins outs) = Some (command_result c outs) /\
+    command_valid c (command_result c outs) outs = Some true /\
+    decide x c prior ins outs = DSkip true.
+Proof. exact decide_unrepaired_bad_input_refuted. Qed.
+Print Assumptions c18_decide_unrepaired_failed_input_refuted.
 
 Theorem c18_skip_never_valid : forall c outs, command_valid c NSkippedCommand outs = Some false.
 Proof. exact skip_never_valid. Qed.
@@ -181,13 +198,13 @@ Print Assumptions c18_decide_implicit_triggers.
 (* ---- an immediate rebuild runs no command ---- *)
 
 (* right after a successful run under a logical clock (all outputs exist and are stamped later than every
-   delivered input, same hash): the stored value is valid, and even if the task is created it does not run *)
+   delivered input, every delivered input is an existing file, same hash): the stored value is valid, and even
+   if the task is created it does not run *)
 Theorem c18_decide_fresh_no_run : forall x c ins outs,
   c_has_deps c = false ->
   forallb (fun f => negb (is_missing f)) outs = true ->
   (forall o, In o outs -> ts_lt (0, 0) (mod_time o)) ->
-  existsb is_bad (requested ins) = false ->
-  forallb (fun v => negb (delivers_missing v)) (requested ins) = true ->
+  forallb stamped (requested ins) = true ->
   all_newer ins outs ->
   decide x c (Some (command_result c outs)) ins outs <> DRun /\
   (x_cancelled x = false -> c_phony c = false -> decide x c (Some (command_result c outs)) ins outs = DUpdateOnly) /\
